@@ -1,0 +1,51 @@
+//go:build verif
+
+package rtpmjpeg
+
+// Contracts checked by /verif/govc (see /verif/DESIGN.md). Comment-only file.
+
+// C08: the partial image is bounded by the 24-bit fragment offset (a continuation is accepted
+// only at the offset already received), and once fragments are held a main JPEG header was
+// seen, so completing an image never dereferences a missing header.
+//@ typeinv Decoder d
+//@   inv[C08] 0 <= d.fragmentsSize && d.fragmentsSize <= 16777215 + 65535
+//@   inv[C08] d.fragmentsSize > 0 ==> d.firstJpegHeader != nil
+
+//@ func (h *headerJPEG) unmarshal
+//@   opt safety-tag=C08
+//@   ensures[C08] err == nil ==> ret == 8 && len(byts) >= 8 && h.Quantization >= 1 && h.FragmentOffset <= 16777215
+//@   modifies fields(h), fresh
+
+//@ func (h *headerQuantizationTable) unmarshal
+//@   opt safety-tag=C08
+//@   ensures[C08] err == nil ==> 4 <= ret && ret <= len(byts)
+//@   modifies fields(h), fresh
+//@   loop 1
+//@     invariant n == 64*int(_it) && 0 <= int(_it) && int(_it) < tableCount && len(h.Tables) == tableCount && fresh(h.Tables) && (tableCount == 1 || tableCount == 2) && length == 64*tableCount && len(byts) - 4 >= length
+
+// Not claimed: indexes the package-level quantizer tables (their length is a fact about the
+// package initialiser).
+//@ func makeQuantizationTables
+//@   requires q >= 1
+//@   modifies fresh
+
+//@ func joinFragments
+//@   opt safety-tag=C08
+//@   requires size >= 0 && size <= 33554432
+//@   ensures[C08] len(ret) == size
+//@   modifies fresh
+//@   loop 1
+//@     invariant _i >= 0 && 0 <= n && n <= size && len(ret) == size && fresh(ret)
+
+//@ func (d *Decoder) resetFragments
+//@   opt typeinv=off
+//@   ensures[C08] d.fragmentsSize == 0 && len(d.fragments) == 0 && d.firstJpegHeader == old(d.firstJpegHeader)
+//@   modifies d.fragments, d.fragmentsSize
+
+//@ func (d *Decoder) Decode
+//@   opt safety-tag=C08
+//@   requires pkt != nil && len(pkt.Payload) <= 65535
+//@   ensures[C08] err == nil ==> len(ret) >= 2
+//@   modifies *
+//@   loop 1
+//@     invariant _i >= 0 && d.firstJpegHeader != nil && len(data) >= 2
